@@ -154,9 +154,12 @@ def gen_mesh(rng, tier, nd=None, exact=True, with_subs=True, maxcells=None):
             if exact:
                 slo = [l + i * c for l, i, c in zip(lo, a0, cell)]
                 shi = [l + i * c for l, i, c in zip(lo, a1, cell)]
-            else:
+            elif rng.random() < 0.5:
                 slo = [F(float(l) + i * float(c)) for l, i, c in zip(lo, a0, cell)]
                 shi = [F(float(l) + i * float(c)) for l, i, c in zip(lo, a1, cell)]
+            else:       # the nearest float of the decimal coordinate (0.3, 0.7, 15e-9 ...)
+                slo = [F(float(l + i * c)) for l, i, c in zip(lo, a0, cell)]
+                shi = [F(float(l + i * c)) for l, i, c in zip(lo, a1, cell)]
             subs.append([name, [S(x) for x in slo], [S(x) for x in shi], a0, a1])
     names = dims or (["x", "y", "z"][:nd] if nd <= 3 else None)
     bcs = ["", "", "neumann", "dirichlet"]
@@ -358,6 +361,13 @@ def gen_src_field(rng, m, nv, dtype, mode):
         tot = [k + e * f for k, e, f in zip(n, ext_lo, fac)]
         sn = [-(-t // f) + e2 for t, f, e2 in zip(tot, fac, ext_hi)]
         shi = [l + k * f * c for l, k, f, c in zip(slo, sn, fac, cell)]
+    elif mode == "same-n":
+        # the same number of cells on a larger region (twice / three times the cell size)
+        fac = [rng.choice([1, 2, 3]) for _ in range(nd)]
+        if all(f_ == 1 for f_ in fac):
+            fac[rng.randrange(nd)] = 2
+        slo, sn = list(lo), list(n)
+        shi = [l + f_ * (h - l) for l, h, f_ in zip(lo, hi, fac)]
     elif mode == "finer":
         fac = [rng.choice([2, 3]) for _ in range(nd)]
         ext = [rng.randint(0, 1) for _ in range(nd)]
@@ -450,7 +460,8 @@ def _gen_simple(rng, m, nv, dtype, kind=None, in_dict=False, tier="quick"):
     if kind == "bad":
         return dict(k="bad", what=rng.choice(["str", "none", "object"]), cls="bad")
     if kind == "field":
-        mode = rng.choice(["same", "coarser", "coarser"] if in_dict else ["same", "coarser", "finer", "shifted"])
+        mode = rng.choice(["same", "coarser", "coarser", "same-n"] if in_dict
+                          else ["same", "coarser", "finer", "shifted", "same-n"])
         s = gen_src_field(rng, m, nv, dtype, mode)
         s["cls"] = "field-" + s["mode"]
         return s
@@ -931,8 +942,172 @@ def gen_derived(rng, tier):
                 use=rng.sample(["cell", "i2p", "p2i", "iter", "field", "dV"], rng.randint(1, 4)))
 
 
+def mk_mesh(lo, cell, n, subs=(), bc="", exact=True, dims=None, tf=None):
+    """hand-made mesh description; subs = [(name, first index per axis, one-past-last index per axis)]"""
+    lo = [F(x) for x in lo]
+    cell = [F(x) for x in cell]
+    hi = [l + k * c for l, k, c in zip(lo, n, cell)]
+    sb = []
+    for name, a0, a1 in subs:
+        slo = [l + i * c for l, i, c in zip(lo, a0, cell)]
+        shi = [l + i * c for l, i, c in zip(lo, a1, cell)]
+        if not exact:  # decimal coordinates as the caller types them: the nearest float of 0.3, 0.7, 15e-9
+            slo = [F(float(x)) for x in slo]
+            shi = [F(float(x)) for x in shi]
+        sb.append([name, [S(x) for x in slo], [S(x) for x in shi], list(a0), list(a1)])
+    if not exact:
+        lo = [F(float(x)) for x in lo]
+        hi = [F(float(x)) for x in hi]
+    tf = tf or (F(1, 2 ** 30) if exact else F(1e-12))
+    return dict(exact=exact, p1=[S(x) for x in lo], p2=[S(x) for x in hi], n=list(n), tf=S(tf), dims=dims, subs=sb,
+                scale=S(max([abs(x) for x in lo + hi] + [F(1)])), bc=bc)
+
+
+def seq_arr(m, nv, dtype="float"):
+    sh = list(m["n"]) + [nv]
+    return dict(k="arr", sh=sh, data=seq_data(math.prod(sh), dtype), cls="arr", py="ndarray")
+
+
+def directed_cases():
+    """a core that is the same in every run (both tiers, every seed): one hand-made group per mechanism"""
+    import random as _random
+    r = _random.Random(20260930)
+    out = []
+    # iteration order, 1 to 4 dimensions, all n > 1 and non-uniform values
+    for n in [(2, 3, 2, 2), (3, 2, 4, 2), (2, 2, 3, 3), (2, 3, 4), (4, 3, 2), (3, 2), (2, 5), (5,)]:
+        m = mk_mesh([0] * len(n), [F(1, 2)] * len(n), n, bc=r.choice(["", "x"]) if len(n) <= 3 else "")
+        for nv in (1, 2):
+            out.append(dict(kind="iter", mesh=m, nv=nv, dtype="float", spec=seq_arr(m, nv)))
+    # overlapping subregions: the first-listed one wins
+    for n, subs in [((4, 3), [("a", (0, 0), (3, 3)), ("b", (1, 0), (4, 2)), ("c", (0, 0), (4, 3))]),
+                    ((6,), [("in", (2,), (4,)), ("left", (0,), (4,)), ("all", (0,), (6,))]),
+                    ((3, 2, 2), [("p", (0, 0, 0), (2, 2, 2)), ("q", (1, 0, 0), (3, 2, 1)), ("r", (1, 1, 0), (3, 2, 2))])]:
+        m = mk_mesh([F(-1, 2)] * len(n), [F(1, 4)] * len(n), n, subs=subs)
+        for nv in (1, 3):
+            items = [[sb[0], dict(k="arr", sh=[nv], data=[[S(10 * (j + 1) + c_), S(0)] for c_ in range(nv)],
+                                  cls="vec", py="tuple")] for j, sb in enumerate(m["subs"])]
+            for d in (None, dict(k="arr", sh=[nv], data=[[S(0), S(0)]] * nv, cls="vec", py="tuple")):
+                for via in ("ctor", "update"):
+                    out.append(dict(kind="init", mesh=m, nv=nv, dtype="float", via=via,
+                                    spec=dict(k="dict", items=list(reversed(items)), default=d)))
+    # a source field with the same number of cells on a larger region; finer / shifted / coarser sources
+    for n in [(4,), (3, 2), (2, 3, 2)]:
+        m = mk_mesh([F(1)] * len(n), [F(1, 2)] * len(n), n)
+        for mode in ("same-n", "same-n", "finer", "shifted", "coarser", "same"):
+            sp = gen_src_field(r, m, 2, "float", mode)
+            sp["cls"] = "field-" + mode
+            out.append(dict(kind="init", mesh=m, nv=2, dtype="float", spec=sp, via="ctor"))
+            out.append(dict(kind="assign", mesh=m, nv=2, dtype="float", s1=sp, via="setter",
+                            s0=dict(k="arr", sh=[2], data=[[S(1), S(0)], [S(2), S(0)]], cls="vec", py="tuple")))
+    # lines in every direction (dyadic), also running towards smaller coordinates
+    m = mk_mesh([0, 0], [1, F(1, 2)], (4, 6), bc="xy")
+    sp = seq_arr(m, 2)
+    for p1, p2, k in [((4, 3), (0, 0), 5), ((0, 3), (4, 0), 9), ((4, 0), (0, 3), 3), ((0, 0), (4, 3), 5),
+                      ((3, F(5, 2)), (1, F(1, 2)), 5), ((2, 3), (2, 0), 7)]:
+        out.append(dict(kind="line", mesh=m, nv=2, dtype="float", spec=sp, p1=[S(x) for x in p1],
+                        p2=[S(x) for x in p2], npts=k, cls="directed"))
+    # lines ending in the lower corner whose last point is rounded to just below pmin
+    m = mk_mesh([0, 0], [1, 1], (10, 4), exact=True)
+    sp = seq_arr(m, 2)
+    for p1, k in [((3.3, 2.0), 24), ((3.3, 2.0), 26), ((3.3, 2.0), 42), ((3.3, 2.0), 47), ((3.3, 2.0), 50),
+                  ((3.3, 2.0), 7), ((7.1, 0.7), 24), ((0.3, 3.9), 50)]:
+        out.append(dict(kind="lineS", mesh=m, nv=2, dtype="float", spec=sp, p1=[S(F(x)) for x in p1],
+                        p2=[S(0), S(0)], npts=k, rounds_outside=True))
+        out.append(dict(kind="lineS", mesh=m, nv=2, dtype="float", spec=sp, p1=[S(F(x)) for x in p1],
+                        p2=[S(10), S(4)], npts=k))
+    # arrays with the right size but another shape
+    for n in [(2, 3), (3, 2, 2), (6,)]:
+        m = mk_mesh([0] * len(n), [1] * len(n), n)
+        s0 = dict(k="arr", sh=[1], data=[[S(5), S(0)]], cls="vec", py="list")
+        for sh in samesize_shapes(n, 1):
+            s1 = dict(k="arr", sh=sh, data=seq_data(math.prod(sh), "float"), cls="samesize", py="ndarray")
+            out.append(dict(kind="init", mesh=m, nv=1, dtype="float", spec=s1, via="ctor"))
+            for via in ("setter", "update"):
+                out.append(dict(kind="assign", mesh=m, nv=1, dtype="float", s0=s0, s1=s1, via=via))
+    # a mesh that was used and then rotated / scaled in place
+    for path, op in [("mesh", dict(op="rotate90", ax=[0, 1], k=1, ref=None)),
+                     ("mesh", dict(op="rotate90", ax=[1, 0], k=3, ref=[S(1), S(1)])),
+                     ("field", dict(op="rotate90", ax=[0, 1], k=1, ref=None)),
+                     ("mesh", dict(op="rotate90", ax=[0, 1], k=2, ref=None)),
+                     ("mesh", dict(op="scale", factor=[S(2), S(F(1, 2))], ref=None)),
+                     ("region", dict(op="scale", factor=S(3), ref=None)),
+                     ("mesh", dict(op="translate", v=[S(3), S(-2)]))]:
+        m = mk_mesh([0, 0], [1, F(1, 4)], (4, 3), subs=[] if path == "region" else [("a", (0, 0), (2, 3))])
+        f_ = dict(t="affine", c=[[S(1), S(0)]], A=[[[S(3), S(0)], [S(-5), S(0)]]])
+        d = dict(mesh=m, path=path, op=op, nv=1, dtype="float", dseed=7, use=["cell", "p2i"],
+                 spec=dict(k="fun", f=f_, style=0, cls="fun"))
+        out.append(dict(kind="derived", **d))
+        for t in ([S(F(1, 10)), S(F(9, 10))], [S(F(7, 10)), S(F(2, 10))]):
+            out.append(dict(kind="derived-sample", t=t, u=[S(F(1, 2)), S(F(3, 10))], **d))
+    # a callable that goes wrong late: the refused call leaves the field as it was
+    m = mk_mesh([-1, -1, 0], [F(1, 2), F(1, 2), 1], (4, 4, 2))
+    base = dict(t="affine", c=[[S(0), S(0)], [S(0), S(0)], [S(1), S(0)]],
+                A=[[[S(1), S(0)], [S(0), S(0)], [S(0), S(0)]], [[S(0), S(0)], [S(1), S(0)], [S(0), S(0)]],
+                   [[S(0), S(0)], [S(0), S(0)], [S(1), S(0)]]])
+    order = x_indices(m["n"])
+    for pos, mode in [(len(order) - 1, "scalar"), (5, "raise"), (len(order) // 2, "len"), (1, "str")]:
+        fa = dict(t="failat", base=base, idx=order[pos], pos=pos, centre=[S(x) for x in centre(m, order[pos])],
+                  quarter=S(F(1, 8)), mode=mode, badlen=1 if mode == "scalar" else 4)
+        for via in ("update", "setter"):
+            out.append(dict(kind="assign", mesh=m, nv=3, dtype="float", via=via,
+                            s0=dict(k="fun", f=base, style=0, cls="fun"),
+                            s1=dict(k="fun", f=fa, style=1, cls="fun-failat")))
+    # decimal lattices: one-cell-thick subregions at coordinates whose quotient by the cell size is not exact
+    for c_, nn in [(F(1, 10), (10, 2)), (F(5, 10 ** 9), (8, 2)), (F(1, 10), (8,))]:
+        for i0 in (3, 6, 7):
+            if i0 + 1 > nn[0]:
+                continue
+            a0 = (i0,) + (0,) * (len(nn) - 1)
+            a1 = (i0 + 1,) + tuple(nn[1:])
+            m = mk_mesh([0] * len(nn), [c_] * len(nn), nn, subs=[("thin", a0, a1)], exact=False)
+            for d in (dict(k="const", v=[S(0), S(0)], cls="zero"), None):
+                out.append(dict(kind="init", mesh=m, nv=1, dtype="float", via="ctor",
+                                spec=dict(k="dict", items=[["thin", dict(k="const", v=[S(7), S(0)], cls="const")]],
+                                          default=d)))
+    # periodic meshes: points on the upper faces belong to the last cell
+    for bc in ("x", "xy", "y", "neumann"):
+        m = mk_mesh([0, -1], [1, F(1, 2)], (3, 4), bc=bc)
+        sp = seq_arr(m, 1)
+        for p in [(3, 1), (3, 0), (1, 1), (0, -1), (F(3, 2), 1), (3, F(-1, 4))]:
+            out.append(dict(kind="sample", mesh=m, nv=1, dtype="float", spec=sp, p=[S(x) for x in p], cls="face"))
+        out.append(dict(kind="line", mesh=m, nv=1, dtype="float", spec=sp, p1=[S(0), S(-1)], p2=[S(3), S(1)],
+                        npts=5, cls="directed"))
+    # extended precision, dtype omitted
+    m = mk_mesh([0], [1], (3,))
+    one_eps = [S(F(1) + F(1, 2 ** 63)), S(0)]
+    for adt, v, dt in [("longdouble", one_eps, "float"), ("clongdouble", [one_eps[0], S(F(-2) + F(3, 2 ** 60))], "complex"),
+                       ("float16", [S(F(3, 8)), S(0)], "float")]:
+        specs = [dict(k="const", v=v, cls="const-x", adt=adt),
+                 dict(k="arr", sh=[3], data=[v, [S(2), S(0)], v], cls="arr-n-x", adt=adt, py="ndarray"),
+                 dict(k="arr", sh=[3, 1], data=[v, v, [S(0), S(0)]], cls="arr-x", adt=adt, py="ndarray")]
+        for sx in specs:
+            for via in ("ctor", "update"):
+                out.append(dict(kind="init", mesh=m, nv=1, dtype=dt, spec=sx, via=via, dtarg="none"))
+            out.append(dict(kind="assign", mesh=m, nv=1, dtype=dt, dtarg="none", via="setter", s1=sx,
+                            s0=dict(k="const", v=[S(4), S(0)], cls="const")))
+    # component labels that differ in case only / contain one another
+    m = mk_mesh([0, 0], [1, 1], (2, 2))
+    for fam in (["b", "B"], ["B", "b"], ["H", "h", "m"], ["Re", "RE", "re", "im"], ["mxy", "mx", "m"]):
+        sp = seq_arr(m, len(fam))
+        for label in fam + [fam[0].swapcase() + "q", "X"]:
+            out.append(dict(kind="comp", mesh=m, nv=len(fam), dtype="float", spec=sp, vdims=fam, label=label))
+    sp = seq_arr(m, 3)
+    for label in ("x", "y", "z", "X", "Z"):
+        out.append(dict(kind="comp", mesh=m, nv=3, dtype="float", spec=sp, vdims=None, label=label))
+    return out
+
+
 def generate(rng, tier):
-    N = 60 if tier == "quick" else 420
+    """seed-independent directed core + the same streams from a fixed seed + the seeded random streams"""
+    import os
+    import random as _random
+    core = directed_cases() + random_streams(_random.Random(424242), "quick", 12)
+    if os.environ.get("VERIF_C02_CORE_ONLY"):
+        return core
+    return core + random_streams(rng, tier, 50 if tier == "quick" else 420)
+
+
+def random_streams(rng, tier, N):
     cases = []
     # -- initialisation by every kind of specification
     for k in range(N * 4):
@@ -1594,13 +1769,29 @@ def run_case(c):
         return rec
 
     if kind == "iter":
-        vals = [np.asarray(v) for v in f]
+        it = iter(f)
+        first = next(it)
+        first_copy = np.array(first, copy=True)
+        vals = [first] + [v for v in it]         # kept beyond the iteration step: no shared buffers
+        vals = [np.asarray(v) for v in vals]
+        vals2 = [np.asarray(v) for v in list(f)]
         obs = dict(values=[enc_arr(v) for v in vals])
         idxs = x_indices(n)
-        if len(vals) != len(idxs):
+        if len(vals) != len(idxs) or len(vals2) != len(idxs):
             rec["oracle"].append("iteration-length")
-        elif not all(v.shape == (nv,) and np.array_equal(v, f.array[tuple(i)]) for v, i in zip(vals, idxs)):
+        elif not all(v.shape == (nv,) and np.array_equal(v, f.array[tuple(i)]) for v, i in zip(vals, idxs)) \
+                or not all(np.array_equal(v, w) for v, w in zip(vals, vals2)) \
+                or not np.array_equal(vals[0], first_copy):
             rec["oracle"].append("iteration-order")
+        # the order is the mesh's: first dimension fastest
+        if [list(map(int, np.atleast_1d(i))) for i in f.mesh.indices] != idxs:
+            rec["oracle"].append("mesh-indices-order")
+        mpts = [[F(float(x)) for x in np.atleast_1d(p)] for p in f.mesh]
+        if mpts != [centre(m, i) for i in idxs]:
+            rec["oracle"].append("mesh-iteration-order")
+        if len(vals) == len(idxs) and not all(np.array_equal(v, f(pt(m, [S(x) for x in p])))
+                                              for v, p in zip(vals, mpts)):
+            rec["oracle"].append("iteration-not-zip-of-mesh")
         rec.update(obs=obs, coq=f'CIter {mesh_coq(m)} {g.nat(nv)} {spec_coq(spec)} {cvll(obs["values"])}',
                    key=f'iter/{tuple(n)}/{nv}/{dtype}')
         return rec
